@@ -15,28 +15,44 @@ Lemma last_in_cons {A} (l : list A) (d : A) : In (last (d :: l) d) (d :: l).
 Proof. apply last_in. discriminate. Qed.
 
 Lemma offsets_stopped_spec offs now :
-  no_overflow offs now ->
+  no_wrap offs now ->
   offsets_stopped offs now = true <-> Stopped offs now.
 Proof.
-  intros [Hn Hts]. unfold Stopped, offsets_stopped, last_commit, first_ts.
+  intros Hnw. unfold Stopped, offsets_stopped, last_commit, first_ts.
   destruct offs as [|f r].
   - split; [discriminate|]. intros (l & Hl & _); discriminate.
-  - set (l := last (f :: r) f).
-    assert (Hl : - ts_bound < co_ts l < ts_bound).
-    { rewrite Forall_forall in Hts. apply Hts. apply last_in_cons. }
-    assert (Hf : - ts_bound < co_ts f < ts_bound).
-    { rewrite Forall_forall in Hts. apply Hts. left; reflexivity. }
-    unfold ts_bound, now_bound in *.
-    assert (E1 : sub64 (co_ts l) (co_ts f) = co_ts l - co_ts f).
-    { unfold sub64. apply wrap64_id. unfold in_i64, two63. lia. }
-    assert (E2 : mul64 now 1000 = now * 1000).
-    { unfold mul64. apply wrap64_id. unfold in_i64, two63. lia. }
-    assert (E3 : sub64 (now * 1000) (co_ts l) = now * 1000 - co_ts l).
-    { unfold sub64. apply wrap64_id. unfold in_i64, two63. lia. }
+  - cbn [no_wrap] in Hnw. set (l := last (f :: r) f) in *. destruct Hnw as (Hn & Hd & Hs).
+    assert (E2 : mul64 now 1000 = now * 1000) by (unfold mul64; apply wrap64_id; exact Hn).
+    assert (E1 : sub64 (co_ts l) (co_ts f) = co_ts l - co_ts f) by (unfold sub64; apply wrap64_id; exact Hd).
+    assert (E3 : sub64 (now * 1000) (co_ts l) = now * 1000 - co_ts l) by (unfold sub64; apply wrap64_id; exact Hs).
     rewrite E1, E2, E3, Z.ltb_lt.
     split.
     + intros H. exists l. split; [reflexivity|exact H].
     + intros (l' & Hl' & H). injection Hl' as <-. exact H.
+Qed.
+
+(* the coarse guard of the first version implies the sharp one *)
+Lemma no_overflow_no_wrap offs now : no_overflow offs now -> no_wrap offs now.
+Proof.
+  intros [Hn Hts]. destruct offs as [|f r]; [exact I|]. cbn [no_wrap].
+  set (l := last (f :: r) f).
+  assert (Hl : - ts_bound < co_ts l < ts_bound).
+  { rewrite Forall_forall in Hts. apply Hts. apply last_in_cons. }
+  assert (Hf : - ts_bound < co_ts f < ts_bound).
+  { rewrite Forall_forall in Hts. apply Hts. left; reflexivity. }
+  unfold ts_bound, now_bound, in_i64, two63 in *. lia.
+Qed.
+
+(* ... and so does what a running Burrow hands to the evaluator *)
+Lemma storage_guard_no_wrap offs now : storage_guard offs now -> no_wrap offs now.
+Proof.
+  intros [Hn Hts]. destruct offs as [|f r]; [exact I|]. cbn [no_wrap].
+  set (l := last (f :: r) f).
+  assert (Hl : 0 <= co_ts l < two63).
+  { rewrite Forall_forall in Hts. apply Hts. apply last_in_cons. }
+  assert (Hf : 0 <= co_ts f < two63).
+  { rewrite Forall_forall in Hts. apply Hts. left; reflexivity. }
+  unfold clock_max, in_i64, two63 in *. lia.
 Qed.
 
 (* ---------- recent lag zero ---------- *)
@@ -187,10 +203,10 @@ Proof. induction pre; cbn; auto. Qed.
 Lemma skipn_app_len {A} (pre : list A) post : skipn (length pre) (pre ++ post) = post.
 Proof. induction pre; cbn; auto. Qed.
 
-Lemma rewound_unrecovered_spec offs :
-  (exists i, rewind_index offs = Some i /\ rewind_recovered offs i = false) <-> RewoundUnrecovered offs.
+Lemma rewound_unrecovered_first_spec offs :
+  (exists i, rewind_index offs = Some i /\ rewind_recovered offs i = false) <-> RewoundUnrecoveredFirst offs.
 Proof.
-  unfold RewoundUnrecovered, rewind_index. fold le_off. split.
+  unfold RewoundUnrecoveredFirst, rewind_index. fold le_off. split.
   - intros (i & Hi & Hr). destruct offs as [|p l]; [discriminate|].
     destruct (rewind_from_some _ _ _ _ Hi) as (pre & q & c & post & Heq & Hk & Hs & Hlt).
     exists pre, q, c, post. repeat split; auto.
@@ -224,9 +240,46 @@ Proof.
     + exfalso. apply rewind_from_none in Hi. rewrite Heq in Hi. eapply sorted_no_rewind; eauto.
 Qed.
 
+Lemma unrecovered_rewind_spec prev rest :
+  unrecovered_rewind prev rest = true <->
+  exists pre p c post, prev :: rest = pre ++ p :: c :: post /\ co_offset c < co_offset p /\
+     Forall (fun o => co_offset o < co_offset p) (c :: post).
+Proof.
+  revert prev; induction rest as [|c post IH]; intros prev; cbn [unrecovered_rewind].
+  - split; [discriminate|]. intros (pre & p & c & post & Heq & _).
+    destruct pre as [|x pre]; cbn [app] in Heq; [discriminate|]. injection Heq as _ Heq. destruct pre; discriminate.
+  - rewrite orb_true_iff, andb_true_iff, negb_true_iff, Z.ltb_lt, IH. split.
+    + intros [[Hlt Hex]|(pre & p & c' & post' & Heq & Hlt & Hall)].
+      * exists [], prev, c, post. split; [reflexivity|]. split; [exact Hlt|].
+        rewrite Forall_forall. intros o Ho.
+        destruct (Z_lt_dec (co_offset o) (co_offset prev)) as [|Hge]; [assumption|exfalso].
+        assert (existsb (fun o0 : coff => co_offset prev <=? co_offset o0) (c :: post) = true).
+        { apply existsb_exists. exists o. split; [exact Ho|apply Z.leb_le; lia]. }
+        congruence.
+      * exists (prev :: pre), p, c', post'. cbn [app]. rewrite Heq. auto.
+    + intros (pre & p & c' & post' & Heq & Hlt & Hall). destruct pre as [|x pre]; cbn [app] in Heq.
+      * injection Heq as E1 E2 E3. subst p c' post'. left. split; [exact Hlt|].
+        destruct (existsb (fun o : coff => co_offset prev <=? co_offset o) (c :: post)) eqn:Hex; [exfalso|reflexivity].
+        apply existsb_exists in Hex. destruct Hex as (o & Ho & Hle). apply Z.leb_le in Hle.
+        rewrite Forall_forall in Hall. specialize (Hall o Ho). lia.
+      * injection Heq as E1 Heq. right. exists pre, p, c', post'. auto.
+Qed.
+
+Lemma rewound_unrecovered_spec offs :
+  rewound_unrecovered offs = true <-> RewoundUnrecovered offs.
+Proof.
+  unfold rewound_unrecovered, RewoundUnrecovered. destruct offs as [|o r].
+  - split; [discriminate|]. intros (pre & p & c & post & Heq & _). destruct pre; discriminate.
+  - apply unrecovered_rewind_spec.
+Qed.
+
+(* the first-step reading is the weaker one: whatever it calls a rewind the repaired rule calls a rewind too *)
+Lemma rewound_first_implies_any offs : RewoundUnrecoveredFirst offs -> RewoundUnrecovered offs.
+Proof. intros (pre & p & c & post & Heq & _ & Hlt & Hall). exists pre, p, c, post. auto. Qed.
+
 (* ---------- the main theorem ---------- *)
 Theorem calc_status_spec offs brokers cur now allowed :
-  offs <> [] -> no_overflow offs now ->
+  offs <> [] -> no_wrap offs now ->
   Spec offs brokers cur now allowed (calc_status_some offs brokers cur now allowed).
 Proof.
   intros Hne Hno. unfold calc_status_some.
@@ -247,11 +300,8 @@ Proof.
   pose proof (offsets_stalled_spec offs) as Hsl.
   pose proof (lag_not_decreasing_spec offs) as Hld.
   assert (Hrest : ~ RewoundUnrecovered offs ->
-     Spec offs brokers cur now allowed
-       (if lag_always_not_zero offs allowed
-        then if offsets_stalled offs then StStall else if lag_not_decreasing offs then StWarn else StOK
-        else StOK)).
-  { intros Hnr.
+     Spec offs brokers cur now allowed (lag_rules offs allowed)).
+  { intros Hnr. unfold lag_rules.
     destruct (lag_always_not_zero offs allowed) eqn:H1.
     - assert (Hnl : ~ SomeLagOk offs allowed) by (intros H; apply Hlz in H; congruence).
       destruct (offsets_stalled offs) eqn:H2.
@@ -261,11 +311,9 @@ Proof.
         * apply SpecWarn; auto. apply Hld; reflexivity.
         * apply SpecElse; auto. intros H; apply Hld in H; congruence.
     - apply SpecLagOk; auto. apply Hlz; reflexivity. }
-  destruct (rewind_index offs) as [i|] eqn:Hi.
-  - destruct (rewind_recovered offs i) eqn:Hr; cbn [negb].
-    + apply Hrest. intros H. apply Hru in H. destruct H as (j & Hj & Hrj). congruence.
-    + apply SpecRewind; auto. apply Hru. exists i; auto.
-  - apply Hrest. intros H. apply Hru in H. destruct H as (j & Hj & _). congruence.
+  clear Hru. destruct (rewound_unrecovered offs) eqn:Hr.
+  - apply SpecRewind; auto. apply rewound_unrecovered_spec; exact Hr.
+  - apply Hrest. intros H. apply rewound_unrecovered_spec in H. congruence.
 Qed.
 
 (* The decision list is deterministic: the specification pins the status. *)
@@ -276,7 +324,7 @@ Proof.
 Qed.
 
 Corollary calc_status_iff offs brokers cur now allowed s :
-  offs <> [] -> no_overflow offs now ->
+  offs <> [] -> no_wrap offs now ->
   (calc_status_some offs brokers cur now allowed = s <-> Spec offs brokers cur now allowed s).
 Proof.
   intros Hne Hno. split.
@@ -297,7 +345,7 @@ Proof.
 Qed.
 
 Theorem calc_status_documented offs brokers cur now allowed s :
-  offs <> [] -> no_overflow offs now ->
+  offs <> [] -> no_wrap offs now ->
   (calc_status (map Some offs) brokers cur now allowed = Ok s <-> Spec offs brokers cur now allowed s).
 Proof.
   intros Hne Hno.
@@ -311,7 +359,7 @@ Qed.
 Section Precedence.
   Variables (offs : list coff) (brokers : list Z) (cur now allowed : Z).
   Hypothesis Hne : offs <> [].
-  Hypothesis Hno : no_overflow offs now.
+  Hypothesis Hno : no_wrap offs now.
   Hypothesis Hlag : allowed < cur.
   Let st := calc_status_some offs brokers cur now allowed.
 
@@ -400,34 +448,24 @@ Section MapInvariance.
     destruct (Z.leb_spec (b + k) (co_offset (last (o :: r) o) + k)), (Z.leb_spec b (co_offset (last (o :: r) o))); try reflexivity; lia.
   Qed.
 
+  Lemma unrecovered_rewind_map p l : unrecovered_rewind (f p) (map f l) = unrecovered_rewind p l.
+  Proof.
+    revert p; induction l as [|c post IH]; intros p; [reflexivity|].
+    cbn [map unrecovered_rewind]. rewrite IH. f_equal.
+    change (f c :: map f post) with (map f (c :: post)). rewrite existsb_map_le, !Hoff. f_equal.
+    destruct (Z.ltb_spec (co_offset c + k) (co_offset p + k)), (Z.ltb_spec (co_offset c) (co_offset p)); try reflexivity; lia.
+  Qed.
+
+  Lemma rewound_unrecovered_map l : rewound_unrecovered (map f l) = rewound_unrecovered l.
+  Proof. destruct l as [|o r]; [reflexivity|]. cbn [map rewound_unrecovered]. apply unrecovered_rewind_map. Qed.
+
   (* the part of the decision that does not look at time *)
   Lemma rest_map l a :
-    (match rewind_index (map f l) with
-     | Some i => if negb (rewind_recovered (map f l) i) then StRewind
-                 else if lag_always_not_zero (map f l) a then
-                        if offsets_stalled (map f l) then StStall
-                        else if lag_not_decreasing (map f l) then StWarn else StOK
-                      else StOK
-     | None => if lag_always_not_zero (map f l) a then
-                 if offsets_stalled (map f l) then StStall
-                 else if lag_not_decreasing (map f l) then StWarn else StOK
-               else StOK
-     end) =
-    (match rewind_index l with
-     | Some i => if negb (rewind_recovered l i) then StRewind
-                 else if lag_always_not_zero l a then
-                        if offsets_stalled l then StStall
-                        else if lag_not_decreasing l then StWarn else StOK
-                      else StOK
-     | None => if lag_always_not_zero l a then
-                 if offsets_stalled l then StStall
-                 else if lag_not_decreasing l then StWarn else StOK
-               else StOK
-     end).
+    (if rewound_unrecovered (map f l) then StRewind else lag_rules (map f l) a) =
+    (if rewound_unrecovered l then StRewind else lag_rules l a).
   Proof.
-    rewrite rewind_index_map, lag_always_not_zero_map, offsets_stalled_map.
-    unfold lag_not_decreasing. rewrite lag_not_decreasing_from_map.
-    destruct (rewind_index l); [rewrite rewind_recovered_map|]; reflexivity.
+    unfold lag_rules. rewrite rewound_unrecovered_map, lag_always_not_zero_map, offsets_stalled_map.
+    unfold lag_not_decreasing. rewrite lag_not_decreasing_from_map. reflexivity.
   Qed.
 End MapInvariance.
 
@@ -449,7 +487,7 @@ Qed.
 
 (* Shifting the clock by k seconds and every commit timestamp by 1000k ms never changes the result. *)
 Theorem shift_times_invariant k offs brokers cur now allowed :
-  no_overflow offs now -> no_overflow (shift_times k offs) (now + k) ->
+  no_wrap offs now -> no_wrap (shift_times k offs) (now + k) ->
   calc_status_some (shift_times k offs) brokers cur (now + k) allowed
   = calc_status_some offs brokers cur now allowed.
 Proof.
@@ -570,8 +608,12 @@ Qed.
 (* ---------- non-vacuity ---------- *)
 Example spec_witness_stop :
   let offs := [mkCoff 10 1 1000 (Some 5); mkCoff 20 2 2000 (Some 5)] in
-  no_overflow offs 10 /\ calc_status_some offs [30] 10 10 0 = StStop.
-Proof. cbn zeta. split; [|vm_compute; reflexivity]. split; [unfold now_bound; lia|]. repeat constructor; cbn; unfold ts_bound; lia. Qed.
+  no_wrap offs 10 /\ storage_guard offs 10 /\ calc_status_some offs [30] 10 10 0 = StStop.
+Proof.
+  cbn zeta. split; [|split; [|vm_compute; reflexivity]].
+  - cbn. unfold in_i64, two63. lia.
+  - split; [unfold clock_max; lia|]. repeat constructor; cbn; unfold two63; lia.
+Qed.
 
 Example spec_witness_rewind :
   calc_status_some [mkCoff 10 1 1000 (Some 5); mkCoff 5 2 2000 (Some 9); mkCoff 7 3 3000 (Some 9)] [30] 10 3 0 = StRewind.
@@ -580,3 +622,99 @@ Proof. vm_compute; reflexivity. Qed.
 Example spec_witness_warn :
   calc_status_some [mkCoff 10 1 1000 (Some 5); mkCoff 11 2 2000 None; mkCoff 12 3 3000 (Some 9)] [30] 10 3 0 = StWarn.
 Proof. vm_compute; reflexivity. Qed.
+
+(* ---------- witnesses: one per rule of the decision list, each inside the guard ---------- *)
+Definition w_c (off ts : Z) (lag : option Z) : coff := mkCoff off 0 ts lag.
+
+(* clock 10 s; windows span 1..3 s, last commit 7..8 s ago: "stopped" unless said otherwise *)
+Example witness_within : calc_status_some [w_c 10 1000 (Some 5)] [30] 3 10 3 = StOK.
+Proof. vm_compute; reflexivity. Qed.
+Example witness_stop :
+  calc_status_some [w_c 10 1000 (Some 5); w_c 20 2000 (Some 5)] [30] 10 10 0 = StStop.
+Proof. vm_compute; reflexivity. Qed.
+(* the same window is NOT stop when a recent broker offset was at or below the last commit *)
+Example witness_recent_zero_lifts_stop :
+  calc_status_some [w_c 10 1000 (Some 5); w_c 20 2000 (Some 5)] [30; 20] 10 10 0 = StWarn.
+Proof. vm_compute; reflexivity. Qed.
+Example witness_rewind :
+  calc_status_some [w_c 10 1000 (Some 5); w_c 5 2000 (Some 9); w_c 7 3000 (Some 9)] [30] 10 3 0 = StRewind.
+Proof. vm_compute; reflexivity. Qed.
+Example witness_rewind_recovered :
+  calc_status_some [w_c 10 1000 (Some 5); w_c 5 2000 (Some 9); w_c 10 3000 (Some 9)] [30] 10 3 0 = StWarn.
+Proof. vm_compute; reflexivity. Qed.
+Example witness_lag_ok :
+  calc_status_some [w_c 10 1000 (Some 5); w_c 11 2000 (Some 0); w_c 12 3000 (Some 9)] [30] 10 3 0 = StOK.
+Proof. vm_compute; reflexivity. Qed.
+Example witness_stall :
+  calc_status_some [w_c 10 1000 (Some 5); w_c 10 2000 (Some 9); w_c 10 3000 (Some 9)] [30] 10 3 0 = StStall.
+Proof. vm_compute; reflexivity. Qed.
+Example witness_warn :
+  calc_status_some [w_c 10 1000 (Some 5); w_c 11 2000 None; w_c 12 3000 (Some 9)] [30] 10 3 0 = StWarn.
+Proof. vm_compute; reflexivity. Qed.
+Example witness_else :
+  calc_status_some [w_c 10 1000 (Some 9); w_c 11 2000 None; w_c 12 3000 (Some 5)] [30] 10 3 0 = StOK.
+Proof. vm_compute; reflexivity. Qed.
+
+(* precedence pairs: a window on which two rules apply and the earlier one of the list wins *)
+Example witness_stop_over_rewind :   (* stopped AND an unrecovered rewind *)
+  calc_status_some [w_c 10 1000 (Some 5); w_c 5 2000 (Some 9)] [30] 10 10 0 = StStop.
+Proof. vm_compute; reflexivity. Qed.
+Example witness_rewind_over_lag_ok : (* an unrecovered rewind AND a commit with lag 0 *)
+  calc_status_some [w_c 10 1000 (Some 0); w_c 5 2000 (Some 9); w_c 7 3000 (Some 9)] [30] 10 3 0 = StRewind.
+Proof. vm_compute; reflexivity. Qed.
+Example witness_lag_ok_over_stall :  (* a commit with lag 0 AND offsets that never moved *)
+  calc_status_some [w_c 10 1000 (Some 0); w_c 10 2000 (Some 9); w_c 10 3000 (Some 9)] [30] 10 3 0 = StOK.
+Proof. vm_compute; reflexivity. Qed.
+Example witness_stall_over_warn :    (* never moved AND lag never decreased *)
+  calc_status_some [w_c 10 1000 (Some 5); w_c 10 2000 (Some 6); w_c 10 3000 (Some 7)] [30] 10 3 0 = StStall.
+Proof. vm_compute; reflexivity. Qed.
+
+(* ---------- the second rewind ---------- *)
+(* 10, 5, 10, 3: the first backward step (10 -> 5) was recovered (the third commit is back at 10), the second
+   (10 -> 3) was not.  The documented rule -- REWIND for a backwards commit not yet recovered -- applies. *)
+Definition second_rewind_window : list coff :=
+  [w_c 10 1000 (Some 5); w_c 5 2000 (Some 6); w_c 10 3000 (Some 7); w_c 3 4000 (Some 8)].
+
+Example second_rewind_is_rewind :
+  RewoundUnrecovered second_rewind_window /\
+  calc_status_some second_rewind_window [30] 10 4 0 = StRewind.
+Proof.
+  split; [|vm_compute; reflexivity].
+  exists [w_c 10 1000 (Some 5); w_c 5 2000 (Some 6)], (w_c 10 3000 (Some 7)), (w_c 3 4000 (Some 8)), [].
+  split; [reflexivity|]. split; [cbn; lia|]. repeat constructor; cbn; lia.
+Qed.
+
+(* before the repair only the first backward step of the window was examined: the same window was WARN *)
+Example second_rewind_masked_before_fix :
+  RewoundUnrecovered second_rewind_window /\ no_wrap second_rewind_window 4 /\
+  calc_status_some_v1 second_rewind_window [30] 10 4 0 = StWarn.
+Proof.
+  split; [exact (proj1 second_rewind_is_rewind)|]. split; [|vm_compute; reflexivity].
+  cbn. unfold in_i64, two63. lia.
+Qed.
+
+(* on windows with at most one backward step the two versions agree *)
+Lemma v1_agrees_when_no_rewind offs brokers cur now allowed :
+  rewind_index offs = None ->
+  calc_status_some_v1 offs brokers cur now allowed = calc_status_some offs brokers cur now allowed.
+Proof.
+  intros Hi. unfold calc_status_some_v1, calc_status_some. rewrite Hi.
+  destruct (cur <=? allowed); [reflexivity|].
+  destruct (offsets_stopped offs now && negb (recent_lag_zero offs brokers)); [reflexivity|].
+  destruct (rewound_unrecovered offs) eqn:Hr; [|reflexivity].
+  exfalso. apply rewound_unrecovered_spec in Hr. destruct Hr as (pre & p & c & post & Heq & Hlt & _).
+  unfold rewind_index in Hi. destruct offs as [|o r]; [destruct pre; discriminate|].
+  apply rewind_from_none in Hi. rewrite Heq in Hi. eapply sorted_no_rewind; eauto.
+Qed.
+
+(* ---------- outside the guard the code and the documented procedure part ways ---------- *)
+(* timestamps -2^62 and 2^62: last - first = 2^63 wraps to -2^63, so Go finds the partition stopped although
+   in the integers the window (2^63 ms) is far longer than the time since the last commit *)
+Example overflow_refuted :
+  let offs := [w_c 10 (-4611686018427387904) (Some 5); w_c 20 4611686018427387904 (Some 5)] in
+  ~ no_wrap offs 10 /\ ~ Stopped offs 10 /\ calc_status_some offs [30] 10 10 0 = StStop.
+Proof.
+  cbn zeta. split; [|split; [|vm_compute; reflexivity]].
+  - cbn. unfold in_i64, two63. lia.
+  - intros (l & Hl & H). cbn in Hl. injection Hl as <-. cbn in H. lia.
+Qed.
